@@ -159,10 +159,20 @@ def wtNoIdf (_t : Bytes) (count : Nat) : Nat := max WEIGHT_MIN (min count TF_CAP
 /-- `b.1.cmp(&a.1).then_with(|| a.0.cmp(&b.0))`: weight descending, then hash ascending -/
 def pairLe (a b : Nat × Nat) : Bool := a.2 > b.2 || (a.2 == b.2 && a.1 ≤ b.1)
 
-/-- `compute_token_weights`; pairs that compare equal are identical, so the sorted result does not
-    depend on the hash-map iteration order -/
+/-- insertion into a list sorted by `pairLe` -/
+def insertPair (a : Nat × Nat) : List (Nat × Nat) → List (Nat × Nat)
+  | [] => [a]
+  | b :: bs => if pairLe a b then a :: b :: bs else b :: insertPair a bs
+
+/-- sort by `pairLe` (structural, so that closed instances evaluate in the kernel); pairs that compare
+    equal both ways are identical, hence every correct sort — Rust's `sort_by` included — yields this list -/
+def sortPairs : List (Nat × Nat) → List (Nat × Nat)
+  | [] => []
+  | a :: as => insertPair a (sortPairs as)
+
+/-- `compute_token_weights`; the result does not depend on the hash-map iteration order (see `sortPairs`) -/
 def computeTokenWeights (hash : Bytes → Nat) (wt : Bytes → Nat → Nat) (tokens : List Bytes) : List (Nat × Nat) :=
-  ((dedup tokens).map fun t => (hash t, wt t (tokens.count t))).mergeSort pairLe
+  sortPairs ((dedup tokens).map fun t => (hash t, wt t (tokens.count t)))
 
 /-- `v[i]` after the accumulation loop of `compute_simhash` -/
 def bitSum (tokens : List (Nat × Nat)) (i : Nat) : Int :=
